@@ -20,22 +20,28 @@ class StepStall(BaseException):
 
 
 STEP_LIMIT_S = 10.0
-_watch = {'since': None, 'thread': None, 'fired': False}
+_DEBUG = bool(__import__('os').environ.get('VERIF_DEBUG_WATCHDOG'))
+_watch = {'since': None, 'thread': None, 'fired': False, 'limit': STEP_LIMIT_S}
 
 
 def _on_stall(signum, frame):
     if _watch['since'] is not None:
         _watch['fired'] = True
+        _watch['limit'] = min(_watch['limit'], 3.0)    # once a blocked loop was seen in this process, re-detect it faster (shrinking replays it often)
+        _watch['since'] = _walltime.monotonic()        # re-armed: the next callback of the same step may block as well
         raise StepStall()
 
 
 def _watchdog():
     import time as _time
     while True:
-        _time.sleep(1.0)
+        _time.sleep(0.5)
         since = _watch['since']
-        if since is not None and _time.monotonic() - since > STEP_LIMIT_S and not _watch['fired']:
+        if since is not None and _time.monotonic() - since > _watch['limit']:
+            if _DEBUG:
+                print('WATCHDOG: signalling', _time.monotonic() - since, flush=True)
             signal.pthread_kill(threading.main_thread().ident, signal.SIGUSR1)
+            _time.sleep(0.5)
 
 
 def _ensure_watchdog():
@@ -111,6 +117,9 @@ class ProcLoop(asyncio.SelectorEventLoop):
             self._thread_id = None
             events._set_running_loop(None)
             sys.set_asyncgen_hooks(*old_hooks)
+        if len(self.world.stalls) >= 3:
+            # the code under test keeps blocking its loop: there is nothing more to learn from this case, and each block costs seconds
+            raise Livelock(f'process {self.name} blocked its event loop {len(self.world.stalls)} times (synchronous spin), last at t={self.world.now}')
 
     def freeze(self):
         """kill -9: whatever was ready or scheduled will never run."""
